@@ -334,10 +334,15 @@ class GraphGen:
         ann = pred = None
         if prev and self.opt(self.p_share * 0.6):
             other = r.choice(prev)
-            if r.random() < 0.5:
+            x = r.random()
+            if x < 0.4:
                 ann = other.annotations
-            else:
+            elif x < 0.8:
                 pred = other.predictions
+            else:
+                # the same clip pair evaluated again (another threshold, another matcher): its own Match objects between
+                # the same predictions and annotations
+                ann, pred = other.annotations, other.predictions
         clip = (ann or pred).clip if (ann or pred) is not None else self.clip()
         ann = ann or self.clip_annotation(clip)
         pred = pred or self.clip_prediction(clip)
